@@ -6,6 +6,10 @@
   AHP/Model/XPathSpec.lean (syntax trees `P` with three precedence levels, the recursive evaluator
   `evalP`, `specAxis`, `specEval`).  Lemmas: AHP/Lemmas/XPath*.lean.
 
+  Text level: AHP/Model/XPathParse.lean (the regex tokenizers of `parsing.py` / `_body.py`: `parseExpr`),
+  AHP/Model/XPathRender.lean (surface syntax `S`, `SurfStep`, canonical text `renderExpr`).  Lemmas:
+  AHP/Lemmas/XPathParse*.lean.
+
   Numbers are an arbitrary `Num N` throughout (the driver instantiates `Float`).
   `Option` = "raises"; error classes are not distinguished.
 -/
@@ -13,6 +17,8 @@ import AHP.Lemmas.XPathSteps
 import AHP.Lemmas.XPathOpt
 import AHP.Lemmas.XPathDoc
 import AHP.Lemmas.XPathPipeline
+import AHP.Lemmas.XPathParseSteps
+import AHP.Lemmas.XPathParseFuel
 import AHP.Gen.Tables
 namespace AHP.C14
 open AHP AHP.XPath
@@ -144,6 +150,121 @@ theorem compile_evaluate_eq_denotation (d : Doc) (hp : PreOrder d) (ss : List (S
 theorem entry_points_agree (d : Doc) (steps : List (Step N)) (i : Nat) :
     evaluate nm d steps [i] = evaluate nm d steps [i, i] := by
   simp [evaluate, dedup]
+
+/-! #### C14f — from the TEXT of an expression -/
+
+/-- C14f, one predicate: the body tokenizer (`parseBodyStringIntoBodyElements` before its constant folding: the
+    element kinds in the order of `ALL_BODY_ELEMENT_RES`, groups, function calls with comma-separated arguments,
+    white space handling) reads the text of every writable predicate — any size, any nesting of groups and
+    function arguments, any operator tree, in every layout (`Style`: any `[ \t]*` at every site where the regular
+    expressions allow it, every letter-case spelling of the function and operator words, either quote) — as
+    its in-order flat list. -/
+theorem parse_render_body (st : Style) (π : List Nat) (p : S N) (hw : S.wf nm p) :
+    parseBody nm (renderS st π p) = some (flatten p.toP) :=
+  parseBody_render nm st π p hw
+
+/-- C14f, the bracket scan: `BRACKETED_SUBSET_RE` cuts the text of a writable predicate (with the white space
+    around it) out of its `[…]` exactly — whatever brackets and quotes its string literals contain — and hands
+    back what follows. -/
+theorem bracket_render (st : Style) (π : List Nat) (p : S N) (hw : S.wf nm p) (w1 w2 rest : Str)
+    (h1 : w1.all isSpTab = true) (h2 : w2.all isSpTab = true) :
+    bracket ('[' :: ((w1 ++ (renderS st π p ++ w2)) ++ ']' :: rest)) = some (w1 ++ (renderS st π p ++ w2), skipSp rest) :=
+  bracket_safe ((ws_bsafe h1).append ((render_bsafe nm st π p hw).append (ws_bsafe h2))) rest
+
+/-- C14f **parse_render**: for every writable expression — any number of steps, lead-in `/` or `//`, optional
+    axis, tag name or `*` in any letter case, any number of predicates of any size — and every layout of it
+    (white space before / after lead-ins, brackets, parentheses, commas and operators, between a function name
+    and its parenthesis, around the whole expression; any letter case of function names, word operators and axes;
+    either quote), tokenizing the text (`parseXPathStrIntoOperations` without the constant folding) yields exactly
+    the flat form of its syntax: the steps with lower-cased names and one in-order body-element list per
+    predicate. -/
+theorem parse_render (st : Style) (ss : List (SurfStep N)) (hw : ∀ s ∈ ss, s.wf nm) :
+    parseExpr nm (renderExpr st ss) = some ((flattenSteps (ss.map SurfStep.toSStep)).map PStep.ofStep) :=
+  parseExpr_render nm st ss hw
+
+/-- C14f: hence `XPathExpression(text)` (tokenize, then fold constants) on the text, in any layout, is the
+    compile step of C14b/d on the flat form of the syntax. -/
+theorem compile_text_eq_compile_syntax (st : Style) (ss : List (SurfStep N)) (hw : ∀ s ∈ ss, s.wf nm) :
+    compileText nm (renderExpr st ss) = compileSteps nm (flattenSteps (ss.map SurfStep.toSStep)) :=
+  compileText_render nm st ss hw
+
+/-- C14f + C14d, **from text to denotation**: take any writable expression whose predicates respect the three
+    precedence levels, write it down in any layout, give the TEXT to the engine (tokenize → fold constants →
+    evaluate).  On every pre-order document and from every start collection the result is what the expression
+    denotes (`specEval` of its abstract syntax); and when the constructor raises, some predicate of the expression
+    has no value on any tag. -/
+theorem text_evaluate_eq_denotation (st : Style) (d : Doc) (hp : PreOrder d) (ss : List (SurfStep N))
+    (hs : ∀ s ∈ ss, s.wf nm) (hw : ∀ s ∈ ss, ∀ p ∈ s.preds, P.wf 3 p.toP = true) :
+    match compileText nm (renderExpr st ss) with
+    | some cs => ∀ start, evaluate nm d cs start = specEval nm d (ss.map SurfStep.toSStep) start
+    | none => ∃ s ∈ ss, ∃ p ∈ s.preds, ∀ c, evalP nm c p.toP = none := by
+  rw [compileText_render nm st ss hs]
+  have hw' : ∀ s ∈ ss.map SurfStep.toSStep, ∀ p ∈ s.preds, P.wf 3 p = true ∧ P.noNull p = true := by
+    intro s' hs' p' hp'
+    obtain ⟨s, hsm, rfl⟩ := List.mem_map.1 hs'
+    simp only [SurfStep.toSStep, toPs_eq_map] at hp'
+    obtain ⟨p, hpm, rfl⟩ := List.mem_map.1 hp'
+    exact ⟨hw s hsm p hpm, toP_noNull p⟩
+  have h := compile_evaluate_eq_denotation nm d hp (ss.map SurfStep.toSStep) hw'
+  cases hc : compileSteps nm (flattenSteps (ss.map SurfStep.toSStep)) with
+  | some cs => rw [hc] at h; exact h
+  | none =>
+    rw [hc] at h
+    obtain ⟨s', hs', p', hp', hev⟩ := h
+    obtain ⟨s, hsm, rfl⟩ := List.mem_map.1 hs'
+    simp only [SurfStep.toSStep, toPs_eq_map] at hp'
+    obtain ⟨p, hpm, rfl⟩ := List.mem_map.1 hp'
+    exact ⟨s, hsm, p, hpm, hev⟩
+
+/-- C14f, the fuel of the tokenizer model is never used up: for EVERY text (well-formed or not), the three loops
+    give the same answer with any amount of extra fuel as with the fuel their callers (`parseBody`, `parseSteps`,
+    `parseExpr`) start them with — every tokenizer hands back a strictly shorter text.  So `parseExpr s = none` never
+    means "out of fuel": it is the model's "the library raises". -/
+theorem tokenizer_fuel_suffices (s : Str) (k : Nat) :
+    loop nm (2 * s.length + 2 + k) .top (strip s) [] [] = loop nm (2 * s.length + 2) .top (strip s) [] [] ∧
+    parsePreds nm (s.length + 1 + k) (strip s) = parsePreds nm (s.length + 1) (strip s) ∧
+    parseSteps nm (s.length + 1 + k) (strip s) = parseSteps nm (s.length + 1) (strip s) := by
+  have hs := strip_length_le s
+  exact ⟨loop_fuel nm (strip s) _ (by omega) .top [] [] k, parsePreds_fuel_add nm _ (strip s) (by omega) k,
+    parseSteps_fuel_add nm _ (strip s) (by omega) k⟩
+
+/-- a layout that is nothing like the canonical one: tabs and spaces everywhere, upper-case words, single quotes
+    (the `x` in its white space is not used) -/
+def noisyStyle : Style where
+  ws := fun k π => if k = .opL then ['\t', 'x'] else if (π.length % 2 = 0) then [' ', '\t'] else [' ']
+  word := fun _ w => w.map (fun c => if c = 'a' then 'A' else if c = 'n' then 'N' else if c = 'd' then 'D' else
+    if c = 't' then 'T' else if c = 'c' then 'C' else if c = 'o' then 'O' else if c = 's' then 'S' else c)
+  single := fun _ => true
+
+/-- Non-vacuity of C14f: `//Div[@n + 2 = -.5 and contains(concat("a]b", text()), 'x"')][last()]/ancestor-or-self::*`
+    is writable whenever `float("2")` and `float("-.5")` are defined; its canonical text is what one expects, and
+    so is its text in another layout. -/
+example (two mhalf : N) (h2 : nm.parse ['2'] = some two) (h5 : nm.parse ['-', '.', '5'] = some mhalf) :
+    let e : List (SurfStep N) := [
+      { dbl := true, axis := none, name := ['D', 'i', 'v'],
+        preds := [.bin (.bool .and)
+                    (.bin (.cmp .eq) (.bin (.arith .add) (.attr ['n']) (.num ⟨false, [2], none⟩ two)) (.num ⟨true, [], some [5]⟩ mhalf))
+                    (.contains (.concat [.str ['a', ']', 'b'], .text]) (.str ['x', '"'])),
+                  .last] },
+      { dbl := false, axis := some .ancestorOrSelf, name := ['*'], preds := [] }]
+    (∀ s ∈ e, s.wf nm) ∧
+    renderExpr Style.canon e = "//Div[@n + 2 = -.5 and contains(concat(\"a]b\", text()), 'x\"')][last()]/ancestor-or-self::*".toList ∧
+    renderExpr noisyStyle e =
+      " \t// Div \t[ \t@n\t+ \t2\t= -.5\tAND \tCONTAiNS ( CONCAT \t( \t'a]b' , TexT ( ) \t) \t, \t'x\"' ) \t] \t[ \tlAST \t( \t) \t] / ANCeSTOr-Or-Self::* \t".toList := by
+  have d2 : digitChar 2 = '2' := by decide
+  have d5 : digitChar 5 = '5' := by decide
+  refine ⟨?_, ?_, ?_⟩
+  · intro s hs
+    simp only [List.mem_cons, List.not_mem_nil, or_false] at hs
+    rcases hs with rfl | rfl
+    · simp [SurfStep.wf, tagNameOk, isNameStart, isNameChar, isAlpha, isDigit, S.wfs, S.wf, NumLit.wf, NumLit.text, d2, d5, h2, h5,
+        attrNameOk, strOk]
+    · simp [SurfStep.wf, tagNameOk, S.wfs]
+  · simp [renderExpr, renderSteps, renderStep, renderPreds, renderS, renderArgs, axisPrefix, axisWord, opText, NumLit.text, quoteWith,
+      d2, d5, Style.canon, Style.sp, Style.spell, Style.spellOp, isWordOp, sepOf, needL, needR, isSpTab, wText, wLast, wConcat, wContains]
+  · simp [renderExpr, renderSteps, renderStep, renderPreds, renderS, renderArgs, axisPrefix, axisWord, opText, NumLit.text, quoteWith,
+      d2, d5, noisyStyle, Style.sp, Style.spell, Style.spellOp, isWordOp, sepOf, needL, needR, isSpTab, wText, wLast, wConcat, wContains,
+      lowerChar]
 
 end
 
